@@ -295,6 +295,7 @@ class FlowMixin:
                         names = [x.id for x in h.type.elts if isinstance(x, ast.Name)]
                     if names is None or v.exc in names or "Exception" in names or (v.exc in ("UnicodeDecodeError",) and "UnicodeError" in names):
                         self.event(s, fr, "except", h, v.exc)
+                        v.caught = True
                         if h.name:
                             self.env_set(s, fr, h.name, Sym(("exc", v.exc), "exc", notnone=True))
                         res = self.exec_block(h.body, s, fr)
